@@ -40,7 +40,7 @@ Environment for every go command (run inside the worktree):
   export GOFLAGS=-mod=mod GOPROXY=off      # leave GOTOOLCHAIN and GOSUMDB alone
 Packages `control` and `cmd` only compile with `-tags dae_stub_ebpf` (the bpf2go output is absent). The kernel C source is control/kern/tproxy.c (it cannot be loaded here; if you change C, demonstrate it by reasoning plus a host-side harness or by a Go-side consequence if you can, and say so).
 "Compiles": `go build ./common/... ./component/... ./config/... ./pkg/... && go build -tags dae_stub_ebpf ./control/ ./cmd/...` succeeds.
-"Existing tests pass" (the pinned suite): `go test -vet=off -count=1 ./common/... ./component/... ./config/... ./pkg/...` passes with your change applied. (Tests in control/ and cmd/ are not part of the pinned suite, but prefer changes that keep `go test -tags dae_stub_ebpf -vet=off ./control/ ./cmd/` passing as well, and say if they do not.) Check `git status` in your worktree: go may rewrite go.sum — do not include go.mod/go.sum in your patch.
+"Existing tests pass" (the pinned suite): `go test -vet=off -count=1 ./common/... ./component/... ./config/... ./pkg/...` passes with your change applied. (Tests in control/ and cmd/ are not part of the pinned suite, but prefer changes that keep `go test -tags dae_stub_ebpf -vet=off ./control/ ./cmd/` passing as well, and say if they do not.) NEVER use `git stash` (the stash is shared by every worktree of /repo and other agents work in parallel): to set a change aside use `git diff > file` + `git checkout -- .` and later `git apply file`. Check `git status` in your worktree: go may rewrite go.sum — do not include go.mod/go.sum in your patch.
 
 ## What kind of change
 
